@@ -10,6 +10,7 @@ package evalfilter
 import (
 	"context"
 	"fmt"
+	"sort"
 	"strings"
 	"sync"
 
@@ -162,8 +163,8 @@ func (e *Eval) Prepare(flags ...[]byte) error {
 	if len(e.instructions) > 65535 || len(e.constants) > 65535 {
 		return fmt.Errorf("the script is too large to compile")
 	}
-	for name, fn := range e.functions {
-		if len(fn.Bytecode) > 65535 {
+	for _, name := range e.functionNames() {
+		if len(e.functions[name].Bytecode) > 65535 {
 			return fmt.Errorf("the function %s is too large to compile", name)
 		}
 	}
@@ -197,6 +198,17 @@ func (e *Eval) Prepare(flags ...[]byte) error {
 	//
 	done = true
 	return nil
+}
+
+// functionNames returns the names of the user-defined functions, sorted:
+// nothing we report may depend upon the order in which a map is walked.
+func (e *Eval) functionNames() []string {
+	names := make([]string, 0, len(e.functions))
+	for name := range e.functions {
+		names = append(names, name)
+	}
+	sort.Strings(names)
+	return names
 }
 
 // dumper is the callback function which is invoked for dumping bytecode
@@ -270,9 +282,10 @@ func (e *Eval) Dump() error {
 		fmt.Printf("\nUser-defined functions:\n")
 	}
 
-	// For each function
+	// For each function, in the order of their names
 	count := 0
-	for name, obj := range funs {
+	for _, name := range e.functionNames() {
+		obj := funs[name]
 		// Show brief information
 		fmt.Printf(" function %s(%s)\n", name, strings.Join(obj.Arguments, ","))
 
